@@ -5,6 +5,7 @@ import (
 	"flag"
 	"fmt"
 	"os"
+	"sync"
 	"time"
 
 	"github.com/youzan/ZanRedisDB/cluster"
@@ -24,8 +25,6 @@ func main() {
 	quick := *tier == "quick"
 	col := ev.NewCollector("C18", *tier, "model_checking")
 	dl := ev.NewDeadline(ev.EnvDur("VERIF_BUDGET", map[bool]time.Duration{true: 150 * time.Second, false: 20 * time.Minute}[quick]))
-	nodes := coordmc.StartNodes(7)
-	defer nodes.Stop()
 	type cfg struct {
 		replica, n, depth int
 		seed              string
@@ -41,19 +40,34 @@ func main() {
 	states, trans, writes, probes := 0, 0, 0, 0
 	exhaustive := true
 	var per []interface{}
+	// every search has its own loopback data nodes; eight run at a time
+	var mu sync.Mutex
+	var wg sync.WaitGroup
+	sem := make(chan struct{}, 8)
 	for _, c := range cfgs {
-		t0 := time.Now()
-		st, ok := coordmc.Run(col, nodes, c.replica, c.n, c.depth, c.seed, dl)
-		states += st.States
-		trans += st.Transitions
-		writes += st.Writes
-		probes += st.Probes
-		if !ok {
-			exhaustive = false
-		}
-		per = append(per, map[string]interface{}{"seed": c.seed, "replication": c.replica, "data_nodes": c.n, "depth": c.depth, "states": st.States, "transitions": st.Transitions, "register_writes": st.Writes, "writes_by_kind": st.WritesByKind, "http_probes_answered": st.Probes, "complete": ok, "wall_s": time.Since(t0).Seconds()})
-		fmt.Printf("[C18] seed=%s replication=%d nodes=%d depth=%d: states=%d transitions=%d writes=%d %v probes=%d complete=%v %.1fs\n", c.seed, c.replica, c.n, c.depth, st.States, st.Transitions, st.Writes, st.WritesByKind, st.Probes, ok, time.Since(t0).Seconds())
+		wg.Add(1)
+		sem <- struct{}{}
+		go func(c cfg) {
+			defer wg.Done()
+			defer func() { <-sem }()
+			own := coordmc.StartNodes(7)
+			defer own.Stop()
+			t0 := time.Now()
+			st, ok := coordmc.Run(col, own, c.replica, c.n, c.depth, c.seed, dl)
+			mu.Lock()
+			defer mu.Unlock()
+			states += st.States
+			trans += st.Transitions
+			writes += st.Writes
+			probes += st.Probes
+			if !ok {
+				exhaustive = false
+			}
+			per = append(per, map[string]interface{}{"seed": c.seed, "replication": c.replica, "data_nodes": c.n, "depth": c.depth, "states": st.States, "transitions": st.Transitions, "register_writes": st.Writes, "writes_by_kind": st.WritesByKind, "http_probes_answered": st.Probes, "complete": ok, "wall_s": time.Since(t0).Seconds()})
+			fmt.Printf("[C18] seed=%s replication=%d nodes=%d depth=%d: states=%d transitions=%d writes=%d %v probes=%d complete=%v %.1fs\n", c.seed, c.replica, c.n, c.depth, st.States, st.Transitions, st.Writes, st.WritesByKind, st.Probes, ok, time.Since(t0).Seconds())
+		}(c)
 	}
+	wg.Wait()
 	col.Set("states", states)
 	col.Set("transitions", trans)
 	col.Set("traces_validated_against_impl", trans)
